@@ -460,7 +460,8 @@ fn small_strings(alphabet: &[char], max_len: usize) -> Vec<String> {
 }
 pub fn gen_c14(g: &mut Gen, tier: &str) {
     let now_year = Date::now().year() as i128;
-    let alphabet: Vec<char> = "019+-:.ZTapm' \u{e9}\u{20ac}\u{1f600}".chars().collect();
+    // incl. characters that are numeric for Unicode but no ASCII digits (Arabic-Indic 1, full-width 2, superscript 2)
+    let alphabet: Vec<char> = "019+-:.ZTapm' \u{e9}\u{20ac}\u{1f600}\u{661}\u{ff12}\u{b2}".chars().collect();
     let inputs = small_strings(&alphabet, if tier == "thorough" { 3 } else { 2 });
     let all_syms: Vec<char> = format!("{}{}", DATE_SYMS, TIME_SYMS).chars().collect();
     let budget = if tier == "thorough" { 400_000 } else { 12_000 };
